@@ -90,6 +90,30 @@ func initBytesModels() {
 	externals["internal/bytealg.IndexString"] = index
 	externals["bytes.Index"] = index
 	externals["strings.Index"] = index
+	// github.com/go-faster/xor: assembly kernels; element-wise model (works on symbolic bytes too)
+	xorBytes := func(fr *frame, args []value) value {
+		i := fr.i
+		dst, a, b := i.asSlice(args[0]), i.asSlice(args[1]), i.asSlice(args[2])
+		n := len(a)
+		if len(b) < n {
+			n = len(b)
+		}
+		if n == 0 {
+			return 0
+		}
+		if len(dst) < n {
+			panic(targetPanic{iface{t: types.Typ[types.String], v: "xor: dst too short"}})
+		}
+		for k := 0; k < n; k++ {
+			dst[k] = i.binop(token.XOR, types.Typ[types.Uint8], a[k], b[k])
+		}
+		return n
+	}
+	externals["github.com/go-faster/xor.xorBytes"] = xorBytes
+	externals["github.com/go-faster/xor.xorBytesSSE2"] = func(fr *frame, args []value) value {
+		// (dst, a, b *byte, n int): pointer form — reached only through xorBytes, which is modelled
+		panic(unsupported("xor.xorBytesSSE2 called directly"))
+	}
 	externals["internal/bytealg.MakeNoZero"] = func(fr *frame, args []value) value {
 		n := int(fr.i.concInt(args[0]))
 		out := make([]value, n)
